@@ -1,7 +1,7 @@
 """C09 — half-open circuit breaker lets through at most the permitted trial calls."""
 from ..core import graph, Call, peel, leaves, show, N
 from ..util import *
-from .cb_common import CB, CRATE, check_no_evict_in_half_open
+from .cb_common import CB, CRATE, check_no_evict_in_half_open, check_window_dispatch
 
 EXPLANATION = (
     "Decides T-RESERVE on the admission function: every path that admits a call outside the Closed arm (the "
@@ -161,6 +161,9 @@ def run(facts, tr, rep):
            "both half-open decisions (re-open on failure, close after the permitted successes) exist" if dec_seen == {"fail", "ok"} else
            "half-open decisions present: %s" % sorted(dec_seen))
     ndec = check_no_evict_in_half_open(cb, rep, "C09.NO-EVICT-IN-HALF-OPEN")
+    # the half-open counters are the count-based ones: a recorder that files trial outcomes elsewhere never lets the
+    # closing / re-opening decision see them
+    check_window_dispatch(cb, rep, "C09.WINDOW-DISPATCH")
     # ---- writers of the guard counters: zeroed only by the transition fn, incremented under the lock
     for f in cfields:
         ws = field_writes(facts, cb.circuit_adt, f)
